@@ -259,7 +259,6 @@ pub mod channel {
     /// side wakes the other). Slots are leaked allocations instead of a slab.
     pub mod pool {
         use super::Canceled;
-        use crate::task::LocalWaker;
         use std::{cell::Cell, future::Future, marker::PhantomData, pin::Pin, task::{Context, Poll}};
 
         pub struct Pool<T>(PhantomData<T>);
@@ -285,8 +284,6 @@ pub mod channel {
             value: Cell<Option<T>>,
             sender: Cell<bool>,
             receiver: Cell<bool>,
-            rx_waker: LocalWaker,
-            tx_waker: LocalWaker,
         }
         impl<T> Pool<T> {
             pub fn channel(&self) -> (Sender<T>, Receiver<T>) {
@@ -294,8 +291,6 @@ pub mod channel {
                     value: Cell::new(None),
                     sender: Cell::new(true),
                     receiver: Cell::new(true),
-                    rx_waker: LocalWaker::new(),
-                    tx_waker: LocalWaker::new(),
                 }));
                 (Sender { inner: p }, Receiver { inner: p })
             }
@@ -324,7 +319,6 @@ pub mod channel {
                 let inner = unsafe { &*self.inner };
                 if inner.receiver.get() {
                     inner.value.set(Some(val));
-                    inner.rx_waker.wake();
                     Ok(())
                 } else {
                     Err(val)
@@ -333,10 +327,9 @@ pub mod channel {
             pub fn is_canceled(&self) -> bool {
                 !unsafe { &*self.inner }.receiver.get()
             }
-            pub fn poll_canceled(&self, cx: &mut Context<'_>) -> Poll<()> {
+            pub fn poll_canceled(&self, _cx: &mut Context<'_>) -> Poll<()> {
                 let inner = unsafe { &*self.inner };
                 if inner.receiver.get() {
-                    inner.tx_waker.register(cx.waker());
                     Poll::Pending
                 } else {
                     Poll::Ready(())
@@ -347,19 +340,17 @@ pub mod channel {
             fn drop(&mut self) {
                 let inner = unsafe { &*self.inner };
                 if inner.receiver.get() {
-                    inner.rx_waker.wake();
                 }
                 inner.sender.set(false);
             }
         }
         impl<T> Receiver<T> {
-            pub fn poll_recv(&self, cx: &mut Context<'_>) -> Poll<Result<T, Canceled>> {
+            pub fn poll_recv(&self, _cx: &mut Context<'_>) -> Poll<Result<T, Canceled>> {
                 let inner = unsafe { &*self.inner };
                 if let Some(val) = inner.value.take() {
                     return Poll::Ready(Ok(val));
                 }
                 if inner.sender.get() {
-                    inner.rx_waker.register(cx.waker());
                     Poll::Pending
                 } else {
                     Poll::Ready(Err(Canceled))
@@ -369,9 +360,6 @@ pub mod channel {
         impl<T> Drop for Receiver<T> {
             fn drop(&mut self) {
                 let inner = unsafe { &*self.inner };
-                if inner.sender.get() {
-                    inner.tx_waker.wake();
-                }
                 inner.receiver.set(false);
             }
         }
